@@ -522,6 +522,65 @@ func checkProperty(id, tier string) int {
 	dwg.Wait()
 	cwg.Wait()
 
+	// calls-only clauses: the static callees of the function
+	for _, r := range runs {
+		c := P.contractFor(r.fn)
+		if c == nil || len(c.CallsOnly) == 0 {
+			continue
+		}
+		var bad []string
+		var scan func(fn *ssa.Function)
+		scan = func(fn *ssa.Function) {
+			for _, b := range fn.Blocks {
+				for _, instr := range b.Instrs {
+					var cc *ssa.CallCommon
+					switch in := instr.(type) {
+					case *ssa.Call:
+						cc = in.Common()
+					case *ssa.Go:
+						cc = &in.Call
+					case *ssa.Defer:
+						cc = &in.Call
+					case *ssa.MakeClosure:
+						scan(in.Fn.(*ssa.Function))
+					}
+					if cc == nil {
+						continue
+					}
+					name := ""
+					if cc.IsInvoke() {
+						name = typeName(cc.Value.Type()) + "." + cc.Method.Name()
+					} else if callee := cc.StaticCallee(); callee != nil {
+						if !isRepoFunc(callee) {
+							continue // library calls are not restricted
+						}
+						name = fnDisplay(callee)
+					} else if _, isBuiltin := cc.Value.(*ssa.Builtin); isBuiltin {
+						continue
+					} else {
+						name = "dynamic call " + typeName(cc.Value.Type())
+					}
+					ok := false
+					for _, a := range c.CallsOnly {
+						if strings.Contains(name, a) {
+							ok = true
+						}
+					}
+					if !ok {
+						bad = append(bad, name)
+					}
+				}
+			}
+		}
+		scan(r.fn)
+		sort.Strings(bad)
+		res := &ObligResult{Name: fnDisplay(r.fn) + "#frame:calls-only", Kind: "frame", Paths: 1, Backend: "call-graph scan", Result: "discharged", Note: "allowed callees: " + strings.Join(c.CallsOnly, ", ")}
+		if len(bad) > 0 {
+			res.Result = "undecided"
+			res.Note += "; also calls: " + strings.Join(bad, ", ")
+		}
+		extraResults = append(extraResults, res)
+	}
 	// callers-only clauses of the functions under contract
 	for _, r := range runs {
 		c := P.contractFor(r.fn)
